@@ -176,6 +176,38 @@ static void c17_run(const Case &c, Result &r) {
   r.sample = here.substr(0, 1200);
 }
 
-void register_c17() { register_property({"C17", "", c17_gen, c17_run, 4, 600, false}); }
+// ---- "mem": the histories of C05 and the bulk edit sequences of C06 executed on the sanitizer build purely for
+// their memory behaviour (the functional oracles belong to C05 / C06: their verdicts are only labelled here).
+// Far more histories per second than the cross-environment differential above, start objects from the file
+// readers included; any ASan / UBSan report or crash kills the child and is the failure.
+void c05_run(const Case &c, Result &r);
+void c06_run(const Case &c, Result &r);
+void c05_gen_public(Tape &t, Case &c);
+void c06_gen_bulk_public(Tape &t, Case &c);
+static void c17_gen_mem(Tape &t, Case &c) { c05_gen_public(t, c); }
+static void c17_run_mem(const Case &c, Result &r) {
+  Result inner;
+  c05_run(c, inner);
+  if (inner.verdict == DISCARD) { r.verdict = DISCARD; return; }
+  for (auto &l : inner.labels) if (l.rfind("solve:", 0) == 0 || l.rfind("start:", 0) == 0 || l.rfind("delslack:done", 0) == 0) r.labels.push_back(l);
+  if (inner.verdict == FAIL) r.label("inner-oracle-failed:" + inner.sig.substr(0, 40));
+  r.nontrivial = inner.nontrivial;
+  r.sample = c.str().substr(0, 1500);
+}
+static void c17_gen_mem6(Tape &t, Case &c) { c06_gen_bulk_public(t, c); }
+static void c17_run_mem6(const Case &c, Result &r) {
+  Result inner;
+  c06_run(c, inner);
+  if (inner.verdict == DISCARD) { r.verdict = DISCARD; return; }
+  if (inner.verdict == FAIL) r.label("inner-oracle-failed:" + inner.sig.substr(0, 40));
+  r.nontrivial = inner.nontrivial;
+  r.sample = c.str().substr(0, 1500);
+}
+
+void register_c17() {
+  register_property({"C17", "", c17_gen, c17_run, 4, 600, false});
+  register_property({"C17", "mem", c17_gen_mem, c17_run_mem, 4, 240, false});
+  register_property({"C17", "mem6", c17_gen_mem6, c17_run_mem6, 6, 120, false});
+}
 
 }  // namespace qsx
